@@ -25,6 +25,7 @@ opt_primal h0
 sol h0
 binv h0
 write_basis h0 b0 st.bas
+write_prob h0 st.lp LP
 read_basis h0 b1 st.bas
 change_bound h0 7 U 1
 dump h0
@@ -77,6 +78,41 @@ def tamper_basis_file(evs):
     return [("basis file content differs from Write(B)", "C14", pipeline.renumber(e2))]
 
 
+def tamper_lp_text(evs):
+    """the writer specification is bound to the file the library wrote: one changed token is reported (as specification drift)"""
+    e2 = copy.deepcopy(evs)
+    i = first(e2, "lp_text")
+    k = e2[i]["tokens"].index("Subject")
+    e2[i]["tokens"][k - 1] = "q" + e2[i]["tokens"][k - 1]
+    return [("one token of the written LP file is changed", "SPEC-DRIFT", pipeline.renumber(e2))]
+
+
+def model_mutations(work):
+    """a model that cannot fail proves nothing: mutated copies of the writer specification must violate MC_LPWrite"""
+    import subprocess, re
+    res = []
+    muts = [("the default upper bound ignores the integrality mark", 'DefaultUpper(lo, up, isint) == IF isint /\\ lo = "0" THEN up = "1" ELSE up = "inf"', 'DefaultUpper(lo, up, isint) == up = "inf"', "bounds"),
+            ("a lower bound of -inf is always taken as default", 'DefaultLower(lo, up) == (lo = "0" /\\ ~NegS(up)) \\/ (lo = "-inf" /\\ NegS(up))', 'DefaultLower(lo, up) == (lo = "0" /\\ ~NegS(up)) \\/ lo = "-inf"', "bounds"),
+            ("the second half of a ranged row repeats the right-hand side", 'row("", "<=", RAdd(L.rhs[i], L.range[i]))', 'row("", "<=", L.rhs[i])', "rowsq"),
+            ("name repair does not look at the names already in use", 'IF (p \\o buf) \\notin table THEN p \\o buf', 'IF TRUE THEN p \\o buf', "namesq")]
+    src = os.path.join(ROOT, "spec")
+    for k, (name, old, new, fam) in enumerate(muts):
+        d = os.path.join(work, "specmut%d" % k)
+        os.makedirs(d)
+        for f in os.listdir(src):
+            if f.endswith(".tla") or f.startswith("MC_LPWrite"):
+                shutil.copy(os.path.join(src, f), d)
+        t = open(os.path.join(d, "LPWrite.tla")).read()
+        hit = old in t
+        open(os.path.join(d, "LPWrite.tla"), "w").write(t.replace(old, new, 1))
+        r = subprocess.run([pipeline.TLCX, "-workers", "4", "-metadir", os.path.join(d, "meta"), "-config", "MC_LPWrite_%s.cfg" % fam, "MC_LPWrite.tla"],
+                           cwd=d, stdout=subprocess.PIPE, stderr=subprocess.STDOUT, text=True, timeout=900)
+        m = re.search(r"Invariant (\w+) is violated", r.stdout)
+        res.append(dict(trace="MC_LPWrite/" + fam, tampering="model mutation: " + name, expected_property="C08", rejected=bool(hit and m), verdict=(m.group(0) if m else None)))
+        shutil.rmtree(d, ignore_errors=True)
+    return res
+
+
 def main():
     work = tempfile.mkdtemp(prefix="selftest_", dir=os.path.join(ROOT, "out") if os.path.isdir(os.path.join(ROOT, "out")) else None)
     res = dict(clean=[], tampered=[], ok=True)
@@ -89,16 +125,20 @@ def main():
             out.append(e)
             if e["call"] == "write_basis" and e.get("rval") == 0:
                 out.append(dict(call="basis_file", h=e["h"], b=e["b"], file=e["file"], lines=pipeline.read_basis_file(os.path.join(work, e["file"]))))
-        evs = pipeline.renumber(out)
+        evs = pipeline.renumber(pipeline.add_lp_text(out, work))
         summ, verd = pipeline.validate(evs, work, "clean", heap="2g")
         res["clean"].append(dict(trace="qsx", events=len(evs), verdicts=[v["why"] for v in verd]))
         if verd:
             res["ok"] = False
-        for k, (name, prop, e2) in enumerate(tamperings(evs) + tamper_basis_file(evs)):
+        for k, (name, prop, e2) in enumerate(tamperings(evs) + tamper_basis_file(evs) + tamper_lp_text(evs)):
             summ, verd = pipeline.validate(e2, work, "t%d" % k, heap="2g")
             hit = [v for v in verd if prop in v["props"]]
             res["tampered"].append(dict(trace="qsx", tampering=name, expected_property=prop, rejected=bool(hit), verdict=(hit[0]["why"][:200] if hit else None)))
             if not hit:
+                res["ok"] = False
+        for t in model_mutations(work):
+            res["tampered"].append(t)
+            if not t["rejected"]:
                 res["ok"] = False
         # LU component
         import factor
